@@ -114,18 +114,25 @@ TreeOf(shape, P) ==
                                     Obj("L", "aL", <<Prop("one", FALSE, Ref("rl", "", "R"))>>) >>)
       [] shape = "barel"  -> Top(P, <<Prop("rb", FALSE, Ref("rb", "", "R"))>>, <<>>,
                                  << Obj("R", "aR", <<Prop("xs", FALSE, ListOf(Ref("rr", "", "R")))>>) >>)
+      \* a tree node written as the bare list of its children; the same through a map, and through a sibling
+      [] shape = "barem"  -> Top(P, <<Prop("rb", FALSE, Ref("rb", "", "R"))>>, <<>>,
+                                 << Obj("R", "aR", <<Prop("xs", TRUE, MapOf(Ref("rr", "", "R")))>>) >>)
+      [] shape = "barel2" -> Top(P, <<Prop("rb", FALSE, Ref("rb", "", "R"))>>, <<>>,
+                                 << Obj("R", "aR", <<Prop("xs", TRUE, ListOf(Ref("rr", "", "Q")))>>),
+                                    Obj("Q", "aQ", <<Prop("ys", FALSE, ListOf(MapOf(Ref("rq", "", "R"))))>>) >>)
 
+Bare == {"bare", "bare2", "barel", "barem", "barel2"}
 Hosts(shape) ==
     {<<"top", "A">>, <<"top", "B">>}
     \cup (IF shape \in {"nest1", "nest1l", "nest2", "sib"} THEN {<<"s1", "B">>, <<"s1", "A">>} ELSE {})
     \cup (IF shape \in {"nest2", "sib"} THEN {<<"s2", "A">>, <<"s2", "C">>} ELSE {})
 IDsOf(sc, shape) ==
-    CASE sc = "top" -> {"A", "B"} \cup (IF shape \in {"bare", "bare2", "barel"} THEN {"R"} ELSE {})
+    CASE sc = "top" -> {"A", "B"} \cup (IF shape \in Bare THEN {"R"} ELSE {})
                        \cup (IF shape = "bare2" THEN {"Q", "L"} ELSE {})
+                       \cup (IF shape = "barel2" THEN {"Q"} ELSE {})
       [] sc = "s1"  -> {"B", "A"}
       [] sc = "s2"  -> {"A", "C"}
 Targets(sc, shape) == {<<"", id>> : id \in IDsOf(sc, shape)} \cup ExtTargets
-Bare == {"bare", "bare2", "barel"}
 Places(shape, W, Q, DW) ==
     IF shape = "smap"
     THEN {[hs |-> "top", ho |-> "Settings", w |-> w, ns |-> tg[1], id |-> tg[2], req |-> FALSE, dis |-> ""] :
@@ -157,7 +164,7 @@ HistBound == Len(hist) <= 40
 \* ------------------------------------------------------------------ model properties
 WellFormedInv == hist = <<>> => WellFormed(tree, ext)
 Canonical == Uniform /\ \A n \in Namespaces : NsTab[n] = Canon[n]
-InlineSame == (Canonical /\ MapBased) => InlineSameAt(InlineK, RawD)
+InlineSame == (Canonical /\ MapBased) => (InlineSameAt(InlineK, RawD) /\ ShorthandLaw)
 Untouched == OtherNamespacesUntouched
 
 \* ------------------------------------------------------------------ export
